@@ -171,6 +171,18 @@ def run(limit=None):
             n += 1
             if sol.check() != z3.sat:
                 bad.append(('strip-axioms-exclude-cpython', s, name, chars, py))
+    # isspace is defined through strip(): the two must agree in CPython for every single character
+    # (and on a few strings) - they use the same character class
+    import sys as _sys
+    for cp in range(_sys.maxunicode + 1):
+        c = chr(cp)
+        n += 1
+        if c.isspace() != (c.strip() == ''):
+            bad.append(('isspace-vs-strip', cp))
+    for s in ['', ' ', ' a', '\t\n', '\u2003 ', 'a']:
+        n += 1
+        if s.isspace() != (len(s) > 0 and s.strip() == ''):
+            bad.append(('isspace-vs-strip-str', s))
     n2, bad2 = run_exprs(ex)
     return n + n2, bad + bad2
 
